@@ -65,6 +65,9 @@ def build_native(t, val):
     if isinstance(t, Obj):
         attrs = {k: build_native(at, val.get(k)) for k, at in t.attrs.items()}
         return native.build_obj(t.relpath, t.cls, attrs)
+    if isinstance(t, Lib) and t.kind == "Path":
+        import pathlib
+        return pathlib.Path(val.get("s", ""))
     if isinstance(t, EnumT):
         native.ensure_repo_on_path()
         mod = importlib.import_module(front.relpath_to_module(t.relpath))
